@@ -248,6 +248,90 @@ def _shard_job(job):
     return out
 
 
+def _child_main(job, conn, crashfile):
+    """Body of one worker process.  A fatal signal inside the code under test (a C extension writing out of bounds,
+    an abort) leaves its Python stack in `crashfile`; the parent turns that into a verdict instead of hanging."""
+    import faulthandler
+    f = open(crashfile, "w")
+    faulthandler.enable(file=f, all_threads=False)
+    res = _shard_job(job)
+    conn.send(res)
+    conn.close()
+
+
+def _crash_result(job, exitcode, crashfile):
+    """A worker died without a result.  If the recorded stack passes through the scratch copy of the package the code
+    under test killed the interpreter: violation.  Otherwise (killed from outside, out of memory): harness error."""
+    prop_module, check_index, tier, seed, shard, known = job
+    import importlib
+    mod = importlib.import_module(prop_module)
+    check = mod.CHECKS[check_index]
+    try:
+        with open(crashfile) as f:
+            trace = f.read()
+    except OSError:
+        trace = ""
+    root = os.path.join(build.scratch_root(), "jellyfysh") + os.sep
+    where = None
+    for line in trace.splitlines():
+        line = line.strip()
+        if line.startswith('File "') and root in line:
+            path = line.split('"')[1][len(root):]
+            func = line.rsplit(" in ", 1)[-1] if " in " in line else "?"
+            where = "%s:%s" % (path, func)
+            break
+    if where is None:
+        return {"harness_error": "%s/%s shard %d: worker process died with exit code %r and no stack inside the code "
+                                 "under test\n%s" % (mod.PROPERTY, check.name, shard, exitcode, trace[-1500:])}
+    first = trace.strip().splitlines()[0] if trace.strip() else "exit code %r" % exitcode
+    rec = Recorder(known)
+    out = rec.export()
+    out["check"] = check.name
+    out["wall"] = 0.0
+    out["violation"] = {"check": check.name, "signature": "crash:%s@%s" % (first.replace("Fatal Python error: ", ""),
+                                                                           where),
+                        "message": "the interpreter was killed inside the code under test (%s, exit code %r); Python "
+                                   "stack at the time:\n%s" % (first, exitcode, trace[:1200]),
+                        "args": {"rerun_shard": {"tier": tier, "seed": seed, "shard": shard}}, "seed": seed}
+    return out
+
+
+def run_jobs(job_list, jobs):
+    """Run the shard jobs in forked processes, at most `jobs` at a time; survives workers that die."""
+    import tempfile
+    from multiprocessing import connection
+    ctx = multiprocessing.get_context("fork")
+    results = [None] * len(job_list)
+    pending = list(range(len(job_list)))
+    running = {}
+    crashdir = tempfile.mkdtemp(prefix="jfcrash_")
+    try:
+        while pending or running:
+            while pending and len(running) < jobs:
+                i = pending.pop(0)
+                parent, child = ctx.Pipe(duplex=False)
+                crashfile = os.path.join(crashdir, "%d.txt" % i)
+                proc = ctx.Process(target=_child_main, args=(job_list[i], child, crashfile))
+                proc.start()
+                child.close()
+                running[parent] = (i, proc, crashfile)
+            for conn in connection.wait(list(running)):
+                i, proc, crashfile = running.pop(conn)
+                try:
+                    results[i] = conn.recv()
+                    proc.join()
+                except EOFError:
+                    proc.join()
+                    results[i] = _crash_result(job_list[i], proc.exitcode, crashfile)
+                conn.close()
+    finally:
+        for conn, (i, proc, crashfile) in running.items():
+            proc.kill()
+        import shutil
+        shutil.rmtree(crashdir, ignore_errors=True)
+    return results
+
+
 def load_known(prop):
     path = os.path.join(VERIF, "known_findings.json")
     if not os.path.exists(path):
@@ -304,12 +388,7 @@ def run_property(prop_module, tier, seed, only=None, jobs=16):
         shards = check.quick_shards if tier == "quick" else check.thorough_shards
         for s in range(shards):
             job_list.append((prop_module, i, tier, seed, s, known))
-    ctx = multiprocessing.get_context("fork")
-    if jobs > 1 and len(job_list) > 1:
-        with ctx.Pool(min(jobs, len(job_list)), maxtasksperchild=1) as pool:
-            results = pool.map(_shard_job, job_list, chunksize=1)
-    else:
-        results = [_shard_job(j) for j in job_list]
+    results = run_jobs(job_list, max(1, jobs))
     merged = {"evaluations": 0, "labels": Counter(), "nontrivial": set(), "samples": {}, "excluded": Counter(),
               "known_hits": {}, "extra": {}, "shards": len(job_list), "per_check": {}, "notes": []}
     violations = []
@@ -399,6 +478,19 @@ def replay(prop_module, path):
     check = check[0]
     rec = Recorder(())
     args = unjson(data["args"])
+    if isinstance(args, dict) and "rerun_shard" in args:
+        # a worker process was killed inside the code under test: the reproducible unit is the whole shard
+        r = args["rerun_shard"]
+        res = run_jobs([(prop_module, mod.CHECKS.index(check), r["tier"], r["seed"], r["shard"], [])], 1)[0]
+        if "harness_error" in res:
+            raise HarnessError(res["harness_error"])
+        if res["violation"] is not None:
+            print("VIOLATION property=%s replay=%s" % (mod.PROPERTY, path))
+            print("  signature: %s" % res["violation"]["signature"])
+            print("  message:   %s" % res["violation"]["message"][:1500])
+            return 1
+        print("replay %s: property held" % path)
+        return 0
     try:
         if check.replay is not None:
             check.replay(rec, args)
